@@ -40,6 +40,8 @@ enum Cer {
     /// (the authenticator has the capability, the credential holds no secret): it is refused, after the
     /// counter was advanced
     AssertRefused(usize),
+    /// assertion whose allow list names both seeded credentials (k first): the store answers with both
+    AssertBoth(usize),
     Register,
 }
 
@@ -66,12 +68,14 @@ struct Config {
     newest_first: bool,
     /// reference store only: the store refuses the k-th counter update
     update_fault: Option<usize>,
+    /// reference store only: the k-th lookup fails (a transient store error)
+    find_fault: Option<usize>,
 }
 
 impl Config {
     fn json(&self) -> Value {
         json!({"configuration": self.name, "ceremonies": self.cers.iter().map(|c| format!("{c:?}")).collect::<Vec<_>>(), "store": format!("{:?}", self.store),
-            "lock": format!("{:?}", self.lock), "uv_yields": self.uv_yields, "store_yields": self.store_yields, "newest_first": self.newest_first, "update_fault": self.update_fault})
+            "lock": format!("{:?}", self.lock), "uv_yields": self.uv_yields, "store_yields": self.store_yields, "newest_first": self.newest_first, "update_fault": self.update_fault, "find_fault": self.find_fault})
     }
 }
 
@@ -132,9 +136,10 @@ fn run_config(cfg: &Config, choose: &mut dyn FnMut(usize, usize) -> usize) -> Ru
                 let creds = &creds;
                 tasks.push(Box::pin(async move {
                     match c {
-                        Cer::Assert(_) | Cer::AssertAny | Cer::AssertSilent(_) | Cer::AssertRefused(_) => {
+                        Cer::Assert(_) | Cer::AssertAny | Cer::AssertSilent(_) | Cer::AssertRefused(_) | Cer::AssertBoth(_) => {
                             let allow = match c {
                                 Cer::Assert(k) | Cer::AssertSilent(k) | Cer::AssertRefused(k) => Some(vec![descriptor(&creds[k].credential_id)]),
+                                Cer::AssertBoth(k) => Some(vec![descriptor(&creds[k].credential_id), descriptor(&creds[1 - k].credential_id)]),
                                 _ => None,
                             };
                             let loud = !matches!(c, Cer::AssertSilent(_));
@@ -228,6 +233,9 @@ fn fail_idless_lookups(st: &RecStore, cfg: &Config) {
     if let Some(k) = cfg.update_fault {
         st.set_fault(crate::collab::Kind::Update, k, 0x28);
     }
+    if let Some(k) = cfg.find_fault {
+        st.set_fault(crate::collab::Kind::Find, k, 0x2E);
+    }
     if cfg.cers.contains(&Cer::AssertAny) && !cfg.newest_first {
         for k in 0..16 {
             st.set_fault(crate::collab::Kind::Find, k, 0x2E);
@@ -255,7 +263,7 @@ fn check_history(rep: &mut Report, engine: &str, case: &Value, items: &[(Cer, Op
     // assertions per credential
     let mut per: HashMap<Vec<u8>, Vec<(u32, u64, u64)>> = HashMap::new();
     for (cer, res, s, e) in items {
-        if let (Cer::Assert(_) | Cer::AssertAny | Cer::AssertSilent(_), Some(Ok((id, ctr)))) = (cer, res) {
+        if let (Cer::Assert(_) | Cer::AssertAny | Cer::AssertSilent(_) | Cer::AssertBoth(_), Some(Ok((id, ctr)))) = (cer, res) {
             per.entry(id.clone()).or_default().push((*ctr, *s, *e));
         }
     }
@@ -314,6 +322,8 @@ fn configs(thorough: bool) -> Vec<Config> {
         ("register||register", vec![Cer::Register, Cer::Register]),
         ("assert without allow list||register", vec![Cer::AssertAny, Cer::Register]),
         ("assert without allow list||assert", vec![Cer::AssertAny, Cer::Assert(0)]),
+        ("assert naming both credentials||register", vec![Cer::AssertBoth(0), Cer::Register]),
+        ("assert naming both credentials||assert on the other", vec![Cer::AssertBoth(1), Cer::Assert(0)]),
         ("refused assert||assert on one credential", vec![Cer::Assert(0), Cer::AssertRefused(0)]),
         ("refused assert||register", vec![Cer::Register, Cer::AssertRefused(0)]),
         ("silent assert||register", vec![Cer::Register, Cer::AssertSilent(0)]),
@@ -325,15 +335,19 @@ fn configs(thorough: bool) -> Vec<Config> {
                 for uv_yields in [1usize, 2] {
                     let sy: Vec<usize> = if store == StoreKind::Rec { if thorough { vec![0, 1] } else { vec![1] } } else { vec![0] };
                     for store_yields in sy {
-                        v.push(Config { name, cers: cers.clone(), store, lock, uv_yields, store_yields, newest_first: false, update_fault: None });
+                        v.push(Config { name, cers: cers.clone(), store, lock, uv_yields, store_yields, newest_first: false, update_fault: None, find_fault: None });
                         if store == StoreKind::Rec && uv_yields == 1 {
                             // a conforming store that lists newest first and answers id-less lookups
                             if cers.contains(&Cer::AssertAny) {
-                                v.push(Config { name, cers: cers.clone(), store, lock, uv_yields, store_yields, newest_first: true, update_fault: None });
+                                v.push(Config { name, cers: cers.clone(), store, lock, uv_yields, store_yields, newest_first: true, update_fault: None, find_fault: None });
                             }
                             // a store that refuses one counter update
                             if cers.iter().any(|c| matches!(c, Cer::Assert(_) | Cer::AssertSilent(_))) {
-                                v.push(Config { name, cers: cers.clone(), store, lock, uv_yields, store_yields, newest_first: false, update_fault: Some(1) });
+                                v.push(Config { name, cers: cers.clone(), store, lock, uv_yields, store_yields, newest_first: false, update_fault: Some(1), find_fault: None });
+                                // a store whose k-th lookup fails once (k counted over the whole run, warm-up included)
+                                for k in [2usize, 3] {
+                                    v.push(Config { name, cers: cers.clone(), store, lock, uv_yields, store_yields, newest_first: false, update_fault: None, find_fault: Some(k) });
+                                }
                             }
                         }
                     }
@@ -423,7 +437,7 @@ fn scheduler_engine(rep: &mut Report, args: &Args, only: Option<u64>) {
             1 => vec![Cer::Assert(0), Cer::Assert(0), Cer::Assert(0)],
             _ => vec![Cer::Assert(0), Cer::Register, Cer::Assert(1)],
         };
-        let cfg = Config { name: "three mixed", cers, store: *rng.pick(&[StoreKind::Memory, StoreKind::Rec]), lock: *rng.pick(&[LockKind::Mutex, LockKind::RwLock]), uv_yields: rng.range(1, 2), store_yields: rng.below(2), newest_first: rng.chance(1, 4), update_fault: if rng.chance(1, 4) { Some(rng.below(3)) } else { None } };
+        let cfg = Config { name: "three mixed", cers, store: *rng.pick(&[StoreKind::Memory, StoreKind::Rec]), lock: *rng.pick(&[LockKind::Mutex, LockKind::RwLock]), uv_yields: rng.range(1, 2), store_yields: rng.below(2), newest_first: rng.chance(1, 4), update_fault: if rng.chance(1, 4) { Some(rng.below(3)) } else { None }, find_fault: if rng.chance(1, 5) { Some(rng.range(2, 5)) } else { None } };
         let r = catch(|| {
             let mut r2 = rng.clone();
             let mut choose = |_s: usize, n: usize| r2.below(n);
@@ -500,7 +514,7 @@ fn thread_round(rep: &mut Report, seed: u64, idx: u64, threads: usize, per_threa
                                     Err(e) => Err(status_byte_ref(&e)),
                                 })
                             }
-                            Cer::AssertSilent(_) | Cer::AssertRefused(_) => unreachable!("not generated by the thread engine"),
+                            Cer::AssertSilent(_) | Cer::AssertRefused(_) | Cer::AssertBoth(_) => unreachable!("not generated by the thread engine"),
                             Cer::Register => block_on_thread(auth.make_credential(mc_request(RP, b"new", &[2u8; 32], vec![pk_param(coset::iana::Algorithm::ES256)], None, None, false, true, true)), 200).map(|r| match r {
                                 Ok(r) => Ok((authdata::decode(&r.auth_data.to_vec()).ok().and_then(|d| d.attested.map(|a| a.cred_id)).unwrap_or_default(), 0)),
                                 Err(e) => Err(status_byte_ref(&e)),
